@@ -2,8 +2,9 @@
 # confirm a seeded change in its scratch worktree /tmp/seed/<ID>: existing suite passes with the change,
 # the demonstration fails with it and passes without it. Leaves the worktree with the change applied.
 id=$1
-w=/tmp/seed/$id
-o=/tmp/seed/$id.out
+base=${SEEDBASE:-/tmp/seed}
+w=$base/$id
+o=$base/$id.out
 cd $w || exit 2
 git checkout -q -- . ; rm -f tests/demo_$id.rs
 git apply $o/patch.diff || { echo "patch does not apply"; exit 2; }
